@@ -245,6 +245,40 @@ inline std::string full_dump(econf_file *kf, bool with_ext = true) {
   return r;
 }
 
+// One file <dir>/<name>.conf read through one of the entry points that can read a single file:
+// 0 econf_readFile, 1 econf_readFileWithCallback (accept all), 2 econf_readConfig (PARSING_DIRS=<dir>),
+// 3 econf_readDirs (<dir> as vendor directory, no /etc directory), 4 econf_readConfigWithCallback.
+// All of them must deliver the same configuration (the result of 2-4 has been through the layered-read code).
+inline bool vf_accept_all_cb(const char *, const void *) { return true; }
+static const char *const READ_VIA_NAME[5] = {"readFile", "readFileWithCallback", "readConfig", "readDirs", "readConfigWithCallback"};
+inline econf_err read_via(int how, const std::string &dir, const std::string &name, const std::string &D, const std::string &C,
+                          econf_file **kf) {
+  std::string path = dir + "/" + name + ".conf";
+  *kf = nullptr;
+  switch (how) {
+    case 0: return econf_readFile(kf, path.c_str(), D.c_str(), C.c_str());
+    case 1: return econf_readFileWithCallback(kf, path.c_str(), D.c_str(), C.c_str(), vf_accept_all_cb, nullptr);
+    case 3: {
+#pragma GCC diagnostic push
+#pragma GCC diagnostic ignored "-Wdeprecated-declarations"
+      econf_err e = econf_readDirs(kf, dir.c_str(), nullptr, name.c_str(), "conf", D.c_str(), C.c_str());
+#pragma GCC diagnostic pop
+      return e;
+    }
+    default: {
+      econf_err e = econf_newKeyFile_with_options(kf, ("PARSING_DIRS=" + dir).c_str());
+      if (e != ECONF_SUCCESS) return e;
+      e = how == 2 ? econf_readConfig(kf, nullptr, nullptr, name.c_str(), "conf", D.c_str(), C.c_str())
+                   : econf_readConfigWithCallback(kf, nullptr, nullptr, name.c_str(), ".conf", D.c_str(), C.c_str(), vf_accept_all_cb, nullptr);
+      if (e != ECONF_SUCCESS && *kf) {
+        econf_freeFile(*kf);
+        *kf = nullptr;
+      }
+      return e;
+    }
+  }
+}
+
 inline const char *cs(const std::string &s) { return s.c_str(); }
 
 }  // namespace vf
